@@ -32,6 +32,8 @@ class Net:
         self.chan = {}          # (src, dst) -> deque of (event type, json text)
         self.alive = {}
         self.cut = set()        # frozenset({a, b}) partitioned pairs
+        self.glitch = {}        # (src, dst) -> number of XML-RPCs from src to dst that fail next (transient fault)
+        self.eager = False      # a proxy thread asked to check an instance is scheduled at once
         self.sent = []          # (src, dst, event type, header) of everything put on a channel
         self.orders = []        # (identifier, supervisor order)
 
@@ -74,6 +76,9 @@ class FakeRemote:
                 def call(*args):
                     if not outer.net.reachable(outer.src, outer.target):
                         raise ConnectionRefusedError('unreachable')
+                    if outer.net.glitch.get((outer.src, outer.target)):
+                        outer.net.glitch[(outer.src, outer.target)] -= 1
+                        raise ConnectionResetError('transient fault')
                     core = outer.net.cores[outer.target]
                     if self.which == 'supvisors':
                         result = getattr(core.rpc_intf, name)(*args)
@@ -115,6 +120,19 @@ def make_proxy_class():
 
         def push_message(self, message):
             self.inbox.append(message)
+            if self.supvisors.net.eager and not getattr(self, 'busy', False) and len(self.inbox) == 1:
+                try:
+                    kind, (_, body) = message
+                    check = kind == SP.InternalEventHeaders.REQUEST and body[0] == 0       # CHECK_INSTANCE
+                except Exception:
+                    check = False
+                if check:
+                    # the (idle) proxy thread runs as soon as the request is queued, before the caller goes on
+                    self.busy = True
+                    try:
+                        self.step()
+                    finally:
+                        self.busy = False
 
         handle_exception = SP.SupervisorProxyThread.handle_exception
         process_event = SP.SupervisorProxyThread.process_event
@@ -289,6 +307,11 @@ class Cluster:
         old = self.cores[i]
         self.net.drop_channels_of(old.ident)
         self.cores[i] = self._build(i)
+
+    def glitch(self, i, j, count=1):
+        """the next `count` XML-RPCs of instance i to instance j fail (transport error), everything else goes through"""
+        key = (self.cores[i].ident, self.cores[j].ident)
+        self.net.glitch[key] = self.net.glitch.get(key, 0) + count
 
     def stall(self, i, j):
         """the proxy thread of instance i towards instance j is stuck: what i publishes to j queues up"""
